@@ -1007,6 +1007,150 @@ fn checkpoint_case(ds: &[ReplicationDelta], rng: &mut Rng, out: &mut Out, thorou
 /// into an object store, `load_checkpoint` = get + open + validate + load.  The stored object is compared
 /// with the model's writer (`C` op) and reading it — pristine, cut, one byte replaced — with the model's
 /// reader, for both `CheckpointConfig::default()` (compression_enabled: the feature is off) and `test()`.
+/// EVERY ENTRY POINT THAT DECODES A STORED OBJECT: a segment (and a checkpoint) is placed in an object store under a
+/// saved manifest, damaged there (bit flips over the whole object, densest in the record / data area; truncations),
+/// and read back through every public recovery entry point — `RecoveryManager::recover`,
+/// `recover_with_progress` (the server's start-up path) and `recover_with_wal` — and through
+/// `StreamingIntegration`-free direct readers above.  ORACLE: an entry point returns an error or exactly what it
+/// returns for the undamaged store; never other data, never a panic; and on the undamaged store all entry points agree.
+fn recovery_entry_points_case(ds: &[ReplicationDelta], rng: &mut Rng, out: &mut Out) {
+    use redis_sim::streaming::wal_store::InMemoryWalStore;
+    use redis_sim::streaming::{CheckpointInfo, InMemoryObjectStore, Manifest, ManifestManager, ObjectStore, RecoveryManager, SegmentInfo, WalRotator};
+    const P: &str = "p";
+    let rid = 1u64;
+    let rt = tokio::runtime::Builder::new_current_thread().enable_time().build().unwrap();
+    let store = InMemoryObjectStore::new();
+    let mm = ManifestManager::new(store.clone(), P);
+    let mut man = Manifest::new(rid);
+    // optionally a checkpoint holding the first delta, then one segment with the rest (or with everything)
+    let with_chk = ds.len() >= 2 && rng.chance(1, 2);
+    let chk_key = format!("{}/checkpoints/chk-{:016}.chk", P, 7);
+    if with_chk {
+        let state: HashMap<String, ReplicatedValue> = [(ds[0].key.clone(), ds[0].value.clone())].into_iter().collect();
+        let img = CheckpointWriter::new(Compression::None).write(state, 7, 0).unwrap();
+        rt.block_on(store.put(&chk_key, &img)).unwrap();
+        man.compact_segments(CheckpointInfo { key: chk_key.clone(), timestamp_ms: 7, key_count: 1, last_segment_id: 0 });
+    }
+    let seg_ds: &[ReplicationDelta] = if with_chk { &ds[1..] } else { ds };
+    let id = man.allocate_segment_id();
+    let seg_key = format!("{}/segments/segment-{:08}.seg", P, id);
+    let mut w = SegmentWriter::new(Compression::None);
+    for d in seg_ds {
+        w.write_delta(d).unwrap();
+    }
+    let seg = w.finish().unwrap();
+    rt.block_on(store.put(&seg_key, &seg)).unwrap();
+    let lo = seg_ds.iter().map(|d| d.value.timestamp.time).min().unwrap_or(0);
+    let hi = seg_ds.iter().map(|d| d.value.timestamp.time).max().unwrap_or(0);
+    man.add_segment(SegmentInfo { id, key: seg_key.clone(), record_count: seg_ds.len() as u32, size_bytes: seg.len() as u64, min_timestamp: lo, max_timestamp: hi });
+    rt.block_on(mm.save(&man)).unwrap();
+    let wal = WalRotator::new(InMemoryWalStore::new(), 1 << 20).unwrap();
+    let eps: [&str; 3] = ["recover", "recover_with_progress", "recover_with_wal"];
+    let run_ep = |ep: &str| -> String {
+        let rm = RecoveryManager::new(store.clone(), P, rid);
+        let r = catch_unwind(AssertUnwindSafe(|| match ep {
+            "recover" => rt.block_on(rm.recover()),
+            "recover_with_progress" => rt.block_on(rm.recover_with_progress(|_| {})),
+            _ => rt.block_on(rm.recover_with_wal(&wal)),
+        }));
+        match r {
+            Err(_) => "crash".into(),
+            Ok(r) => crate::c11::show_recovered(&r),
+        }
+    };
+    let pristine: Vec<String> = eps.iter().map(|ep| run_ep(ep)).collect();
+    out.count("recovery-entry-points:case");
+    if !pristine[0].starts_with("ok") || pristine.iter().any(|p| *p != pristine[0]) {
+        out.violation("C14:recovery-entry-points:disagree-on-undamaged-store", "the recovery entry points do not all return the stored deltas from an undamaged store", json!({"recover": pristine[0], "recover_with_progress": pristine[1], "recover_with_wal": pristine[2]}));
+        return;
+    }
+    let objects: Vec<(&str, &String, Vec<u8>)> = if with_chk { vec![("segment", &seg_key, seg.clone()), ("checkpoint", &chk_key, rt.block_on(store.get(&chk_key)).unwrap())] } else { vec![("segment", &seg_key, seg.clone())] };
+    for (what, key, img) in &objects {
+        let n = img.len();
+        let mut muts: Vec<(usize, u8)> = Vec::new();
+        for _ in 0..20 {
+            // record / data area (between the header and the footer) gets most of the flips
+            let p = if rng.chance(3, 4) && n > 80 { 48 + rng.below((n - 72) as u64) as usize } else { rng.below(n as u64) as usize };
+            muts.push((p, img[p] ^ (1 << rng.below(8))));
+        }
+        for (p, v) in muts {
+            let mut b = img.clone();
+            b[p] = v;
+            rt.block_on(store.put(key, &b)).unwrap();
+            for (i, ep) in eps.iter().enumerate() {
+                let r = run_ep(ep);
+                out.count(&format!("damage:stored-{}:bitflip:via-{}", what, ep));
+                if r == "crash" {
+                    out.violation(&format!("C14:panic:stored-{}:{}", what, ep), "a recovery entry point panicked on a damaged stored object", json!({"object": hex(img), "pos": p, "val": v, "entry_point": ep}));
+                } else if r.starts_with("ok") && r != pristine[i] {
+                    out.violation(
+                        &format!("C14:stored-damage-decoded:{}:{}", what, ep),
+                        &format!("{} returned OTHER data from a store whose {} object has one flipped bit (position {}, {} -> {}) instead of an error", ep, what, p, img[p], v),
+                        json!({"entry_point": ep, "object": what, "image": hex(img), "pos": p, "old": img[p], "new": v, "undamaged": pristine[i].chars().take(400).collect::<String>(), "returned": r.chars().take(400).collect::<String>()}),
+                    );
+                }
+            }
+        }
+        for _ in 0..4 {
+            let l = rng.below(n as u64) as usize;
+            rt.block_on(store.put(key, &img[..l])).unwrap();
+            for ep in eps.iter() {
+                let r = run_ep(ep);
+                out.count(&format!("damage:stored-{}:truncate:via-{}", what, ep));
+                if !r.starts_with("err") {
+                    out.violation(&format!("C14:stored-truncation-decoded:{}:{}", what, ep), "a recovery entry point did not reject a truncated stored object", json!({"entry_point": ep, "object": what, "len": l, "of": n, "returned": r.chars().take(300).collect::<String>()}));
+                }
+            }
+        }
+        rt.block_on(store.put(key, img)).unwrap();
+    }
+}
+
+/// LENGTH-WIDTH BOUNDARIES (capacity thresholds nobody configured): a payload just beyond 2^16 and just beyond
+/// 2^24 bytes through every stored encoding (WAL entry, segment, checkpoint) — judged directly (the model is not
+/// given 16 MiB op lines): the round trip must return the value, bit-identical
+fn wide_payload_roundtrips(out: &mut Out) {
+    for len in [(1usize << 16) + 1, (1usize << 24) + 1] {
+        let v = MRv { crdt: MCrdt::Lww(MLww { v: Some((0..len).map(|i| (i % 251) as u8).collect()), t: 5, r: 1, tomb: false }), vc: None, exp: None, t: 5, r: 1, rf: None }.to_real();
+        let d = ReplicationDelta::new(format!("wide{}", len), v, ReplicaId::new(1));
+        let want = bincode::serialize(&d).unwrap();
+        out.count(&format!("wide-payload:{}", len));
+        // WAL entry
+        let ok = catch_unwind(AssertUnwindSafe(|| {
+            let e = WalEntry::from_delta(&d, 5).unwrap();
+            let enc = e.encode();
+            match WalEntry::decode(&enc) {
+                Some((e2, n)) => n == enc.len() && e2.timestamp == 5 && e2.to_delta().map(|d2| bincode::serialize(&d2).unwrap() == want).unwrap_or(false),
+                None => false,
+            }
+        }));
+        if !matches!(ok, Ok(true)) {
+            out.violation("C14:roundtrip:wal-entry:wide-payload", &format!("a delta with a {}-byte value did not survive from_delta/encode/decode/to_delta", len), json!({"value_len": len, "payload_len": want.len()}));
+        }
+        // segment
+        let ok = catch_unwind(AssertUnwindSafe(|| {
+            let mut w = SegmentWriter::new(Compression::None);
+            w.write_delta(&d).unwrap();
+            let img = w.finish().unwrap();
+            let r = SegmentReader::open(&img).and_then(|r| { r.validate()?; r.read_all() });
+            matches!(r, Ok(ref v) if v.len() == 1 && bincode::serialize(&v[0]).unwrap() == want)
+        }));
+        if !matches!(ok, Ok(true)) {
+            out.violation("C14:roundtrip:segment:wide-payload", &format!("a delta with a {}-byte value did not survive a segment", len), json!({"value_len": len}));
+        }
+        // checkpoint
+        let ok = catch_unwind(AssertUnwindSafe(|| {
+            let state: HashMap<String, ReplicatedValue> = [(d.key.clone(), d.value.clone())].into_iter().collect();
+            let img = CheckpointWriter::new(Compression::None).write(state, 1, 0).unwrap();
+            let r = CheckpointReader::open(&img).and_then(|r| { r.validate()?; r.load() });
+            matches!(r, Ok(ref c) if c.state.len() == 1 && show_real(&c.state[&d.key]) == show_real(&d.value))
+        }));
+        if !matches!(ok, Ok(true)) {
+            out.violation("C14:roundtrip:checkpoint:wide-payload", &format!("a state with a {}-byte value did not survive a checkpoint", len), json!({"value_len": len}));
+        }
+    }
+}
+
 fn manager_case(ds: &[ReplicationDelta], rng: &mut Rng, out: &mut Out) {
     use redis_sim::streaming::checkpoint::{CheckpointConfig, CheckpointManager};
     use redis_sim::streaming::{InMemoryObjectStore, ManifestManager, ObjectStore};
@@ -1267,6 +1411,7 @@ pub fn run(a: &Args) {
         let r = SegmentWriter::new(Compression::None).finish();
         out.op("S 0 ".into(), match r { Err(SegmentError::Empty) => "none".into(), Err(e) => format!("err {}", seg_err(&e)), Ok(b) => hex(&b) });
     }
+    wide_payload_roundtrips(&mut out);
     for case_no in 0..a.n {
         let n = match rng.below(6) {
             0 => 1,
@@ -1283,6 +1428,9 @@ pub fn run(a: &Args) {
         }
         if case_no % 4 == 0 {
             manager_case(&ds, &mut rng, &mut out);
+        }
+        if case_no % 3 == 0 {
+            recovery_entry_points_case(&ds, &mut rng, &mut out);
         }
     }
     out.finish("case = one batch of real ReplicationDeltas (every CRDT kind: values from random_value / reachable replicas / CRDT API, many-field hashes, binary/empty/1000-byte strings, tombstones, vector clocks, expiry, u64::MAX stamps; unicode/NUL/empty keys) encoded as WAL entries, one segment, one checkpoint and five gossip messages; every (sampled when > 400 bytes; thorough: every) truncation length and header/footer position x {bit flip, 0x00, 0xFF} plus sampled body positions; distinct by canonical text of the batch; non-trivial iff >= 2 deltas");
